@@ -57,11 +57,21 @@ pub enum Val {
 /// repeated under the controlled scheduler with one scanner thread.
 pub const NEEDS_THREADS: &str = "this program creates threads or waits on a condition variable: it cannot be evaluated without a scheduler";
 
-/// A condition variable: a generation counter under the controlled scheduler's mutex + condvar.
-/// `signal` wakes every waiter (a legal superset of "wakes one": waiters must tolerate spurious
-/// wake-ups anyway); a signal with nobody waiting is lost, as in reality.
+/// A condition variable: the tickets of the threads waiting and of those woken, under the
+/// controlled scheduler's mutex + condvar. `signal` wakes exactly ONE waiter (which one is a
+/// function of the workload), `broadcast` all of them; a signal with nobody waiting is lost, as in
+/// reality. (No spurious wake-ups are injected: a program has to tolerate them but may not rely
+/// on them — a `signal` where a `broadcast` was needed leaves a waiter asleep for ever.)
 pub struct CvCell {
-    sh: Option<(shuttle::sync::Mutex<u64>, shuttle::sync::Condvar)>,
+    sh: Option<(shuttle::sync::Mutex<CvState>, shuttle::sync::Condvar)>,
+}
+
+#[derive(Default)]
+pub struct CvState {
+    next: u64,
+    waiting: Vec<u64>,
+    woken: Vec<u64>,
+    signals: u64,
 }
 impl std::fmt::Debug for CvCell {
     fn fmt(&self, f: &mut std::fmt::Formatter<'_>) -> std::fmt::Result {
@@ -1791,27 +1801,33 @@ impl Runtime {
                 }
             }
             "make-condition-variable" => Ok(Val::CondVar(Arc::new(CvCell {
-                sh: if self.concurrent { Some((shuttle::sync::Mutex::new(0), shuttle::sync::Condvar::new())) } else { None },
+                sh: if self.concurrent { Some((shuttle::sync::Mutex::new(CvState::default()), shuttle::sync::Condvar::new())) } else { None },
             }))),
             "wait-condition-variable" => {
                 let (Some(Val::CondVar(cv)), Some(Val::Mutex(m))) = (args.first(), args.get(1)) else { return runtime("wait-condition-variable: expected a condition variable and a mutex") };
                 let Some((gen, cond)) = &cv.sh else { return runtime(NEEDS_THREADS) };
                 let timed = args.len() > 2;
-                // the generation is read while the mutex is still held: a signal sent after the
-                // release below is seen, one sent before this call is lost
+                // the thread joins the waiters while the mutex is still held: a signal sent after the
+                // release below finds it, one sent before this call is lost
                 let mut g = gen.lock().unwrap_or_else(|e| e.into_inner());
-                let g0 = *g;
+                let ticket = g.next;
+                g.next += 1;
+                g.waiting.push(ticket);
                 self.release(*m, ctx, "wait-condition-variable")?;
                 let mut signalled = true;
                 if timed {
                     // a wait with a time-out may return without a signal
                     drop(g);
                     self.yield_point();
-                    signalled = *gen.lock().unwrap_or_else(|e| e.into_inner()) != g0;
+                    let mut g = gen.lock().unwrap_or_else(|e| e.into_inner());
+                    signalled = g.woken.contains(&ticket);
+                    g.woken.retain(|t| *t != ticket);
+                    g.waiting.retain(|t| *t != ticket);
                 } else {
-                    while *g == g0 {
+                    while !g.woken.contains(&ticket) {
                         g = cond.wait(g).unwrap_or_else(|e| e.into_inner());
                     }
+                    g.woken.retain(|t| *t != ticket);
                     drop(g);
                 }
                 self.acquire(*m, ctx, "wait-condition-variable")?;
@@ -1821,7 +1837,18 @@ impl Runtime {
                 let Some(Val::CondVar(cv)) = args.first() else { return runtime(format!("{name}: not a condition variable")) };
                 if let Some((gen, cond)) = &cv.sh {
                     self.point();
-                    *gen.lock().unwrap_or_else(|e| e.into_inner()) += 1;
+                    let mut g = gen.lock().unwrap_or_else(|e| e.into_inner());
+                    g.signals += 1;
+                    if name == "broadcast-condition-variable" {
+                        let all = std::mem::take(&mut g.waiting);
+                        g.woken.extend(all);
+                    } else if !g.waiting.is_empty() {
+                        // exactly one waiter wakes; which one is not the program's choice
+                        let i = (crate::rng::mix(&[self.knobs.chunk_seed, g.signals, g.waiting.len() as u64]) % g.waiting.len() as u64) as usize;
+                        let t = g.waiting.remove(i);
+                        g.woken.push(t);
+                    }
+                    drop(g);
                     cond.notify_all();
                 }
                 Ok(Val::Unspec)
